@@ -5,6 +5,7 @@ import Goirc.Model.Commands
 import Goirc.Spec.Wire
 import Goirc.Model.Flood
 import Goirc.Spec.Flood
+import Driver.LineIO
 /-!
 # Line-protocol oracle: one request per line on stdin, one reply per line on stdout.
 
@@ -62,6 +63,56 @@ def handle (words : List String) : String :=
     match hexDecode wire, parseCmd m args with
     | some w, some c => if Spec.Wire.bytesOk (verbOf c) w then "ok" else "fail"
     | _, _ => "bad-op"
+  | ["parse", h, tb] =>
+    match hexDecode h, tableDecode tb with
+    | some b, some t =>
+      match parseLine (extOf t) b with
+      | none => "nil"
+      | some l => match needs l with
+        | some x => "need " ++ hexEncode x
+        | none => lineEncode l
+    | _, _ => "bad-op"
+  | ["acc", h, tb] =>
+    match hexDecode h, tableDecode tb with
+    | some b, some t =>
+      match parseLine (extOf t) b with
+      | none => "nil"
+      | some l => match needs l with
+        | some x => "need " ++ hexEncode x
+        | none => s!"text={hexEncode l.text} public={boolStr l.public} target={hexEncode l.target}"
+    | _, _ => "bad-op"
+  | "accl" :: "line" :: ws =>   -- accessors of the model applied to a given line
+    match lineDecode ws with
+    | some l => s!"text={hexEncode l.text} public={boolStr l.public} target={hexEncode l.target}"
+    | none => "bad-op"
+  | "spec01acc" :: text :: pub :: target :: "line" :: ws =>
+    match hexDecode text, hexDecode target, lineDecode ws with
+    | some t, some tg, some l => if Spec.Irc.accessorsOk l t (pub == "1") tg then "ok" else "fail"
+    | _, _, _ => "bad-op"
+  | "render" :: tb :: ws =>
+    match tableDecode tb, msgDecode ws with
+    | some t, some m =>
+      let e := Spec.Irc.expected (extOf t) m
+      s!"wf={boolStr m.wf} bytes={hexEncode (Spec.Irc.render m)} expect={lineEncode e}"
+    | _, _ => "bad-op"
+  | ["trimcrlf", h] =>
+    match hexDecode h with
+    | some b => hexEncode (recvTrim b)
+    | none => "bad-op"
+  | ["fields", h] =>
+    match hexDecode h with
+    | some b => listEncode (fields b)
+    | none => "bad-op"
+  | ["trimspace", h] =>
+    match hexDecode h with
+    | some b => hexEncode (trimSpace b)
+    | none => "bad-op"
+  | ["userhost", h] =>
+    match hexDecode h with
+    | some b => match parseUserHost b with
+      | some (n, i, ho) => s!"{hexEncode n} {hexEncode i} {hexEncode ho} 1"
+      | none => "- - - 0"
+    | none => "bad-op"
   | ["rate", c, b, e] =>
     match c.toNat?, b.toInt?, e.toInt? with
     | some c, some b, some e => let r := Go.Flood.rate c b e; s!"{r.1} {r.2}"
